@@ -70,6 +70,14 @@ func (r *Run) Step(op Op) StepObs {
 		}
 		ok := refKey(ownerRef)
 		in := stg.NewAllocInput(op.D, op.P, op.N, ok.ID, ok.PK, blobIDs(op.Bl), stg.PriceRange{Min: 0, Max: uint64(op.R)}, stg.PriceRange{Min: 0, Max: uint64(op.W)}, op.X&xTPE != 0)
+		if r.H.Ent {
+			var tickets []string
+			for _, b := range op.Bl {
+				tickets = append(tickets, refKey(b).Sign(ok.ID))
+			}
+			in = stg.NewEnterpriseAllocInput(op.D, op.P, op.N, ok.ID, ok.PK, blobIDs(op.Bl), tickets, stg.PriceRange{Min: 0, Max: uint64(op.R)}, stg.PriceRange{Min: 0, Max: uint64(op.W)}, op.X&xTPE != 0)
+			kind = "newalloc-enterprise"
+		}
 		res = w.Exec(sender, "new_allocation_request", in, op.V, now)
 		if res.OK {
 			r.Allocs[op.A] = res.TxnHash
